@@ -10,7 +10,7 @@ use std::time::Duration;
 
 pub static PROP: Prop = Prop {
     id: "C10",
-    rule: "cases: (a) token soup: 0-40 fragments from 14 character/token classes (operator characters, operator spellings, delimiters, digit runs with . e E + -, quotes balanced and unbalanced, ; , whitespace, names, keywords and near-keywords, 2/3/4-byte scalars incl. U+00A0/U+2003, other first characters, odd whitespace), glued without separator 3/4 of the time; (b) structured token lists (every registered operator, delimiters, numbers, strings with arbitrary payload, names with every allowed first/body character, booleans and near-booleans, word operators and near-words, names before `(`) joined by non-empty whitespace: the stream must equal the list by construction; (c) the same lists with arbitrary (also empty) separators; (d) in fresh child processes: operator sets extended by generated prefix-closed symbolic chains (tail characters from +-*/^%&!=?:><|~@#$.) and word operators, two thirds of them with a tokenize -> register -> tokenize history, then (b)/(c) over the extended table. Oracle on every input: span invariants (in bounds, char boundaries, increasing, gaps whitespace-only, payload == covered slice; string = slice minus equal quotes; number value == slice), and equality with the reference tokenizer (maximal munch over operator prefix chains, whole-word rule, function look-ahead). Non-trivial: >= 3 tokens and (a multi-byte scalar inside a token, or two tokens with nothing between them, or an operator that is a proper prefix of another registered operator); distinct by (token kind sequence, separator-emptiness pattern).",
+    rule: "cases: (a) token soup: 0-40 fragments from 14 character/token classes (operator characters, operator spellings, delimiters, digit runs with . e E + -, quotes balanced and unbalanced, ; , whitespace, names, keywords and near-keywords, 2/3/4-byte scalars incl. U+00A0/U+2003, other first characters, odd whitespace), glued without separator 3/4 of the time; (b) structured token lists (every registered operator, delimiters, numbers, strings with arbitrary payload, names with every allowed first/body character, booleans and near-booleans, word operators and near-words, names before `(`) joined by non-empty whitespace: the stream must equal the list by construction; (c) the same lists with arbitrary (also empty) separators; (d) in fresh child processes: operator sets extended by generated prefix-closed symbolic chains (tail characters from +-*/^%&!=?:><|~@#$.) and word operators (identifiers and spellings that are none, such as is-not, ~=, @@, не, and multi-byte words longer than every built-in operator: содержит, größer_als), two thirds of them with a tokenize -> register -> tokenize history, then (b)/(c) over the extended table. Oracle on every input: span invariants (in bounds, char boundaries, increasing, gaps whitespace-only, payload == covered slice; string = slice minus equal quotes; number value == slice), and equality with the reference tokenizer (maximal munch over operator prefix chains, whole-word rule, function look-ahead). Non-trivial: >= 3 tokens and (a multi-byte scalar inside a token, or two tokens with nothing between them, or an operator that is a proper prefix of another registered operator); distinct by (token kind sequence, separator-emptiness pattern).",
     assumptions: &[
         "the tokenizer is reached through the cfg-guarded hook verif_hooks::tokenize, which drives the private Tokenizer to EOF",
         "numbers with more than 28 digits are compared only up to that token (rounding there is not pinned by the statement)",
@@ -337,7 +337,7 @@ fn gen_extra_ops(src: &mut Src, tab: &mut OpTable) -> Vec<J> {
             const TAIL: &str = "+-*/^%&!=?:><|~@#$.";
             format!("{}{}", base, TAIL.chars().nth(src.pick(TAIL.len())).unwrap())
         } else {
-            let w = *src.choose(&["xor", "mod", "contains", "is", "isnt", "In", "inside", "nand", "x_1", "TRUE"]);
+            let w = *src.choose(&["xor", "mod", "contains", "is", "isnt", "In", "inside", "nand", "x_1", "TRUE", "is-not", "~=", "@@", "не", "enthält", "divisible-by", "包含", "содержит", "größer_als", "не-входит-в", "是否包含于"]);
             w.to_string()
         };
         if name == "?" || name == ":" {
